@@ -56,6 +56,14 @@ __status__ = "development"
 # names of the extension modules that have been built (and imported) in this process
 _built_modules = set()
 
+# the constants pi, E and I (exactly these spellings are reserved names in model equations) as whole identifiers
+_const_tokens = re.compile(r"(?<![\w.])(pi|E|I)(?![\w(])")
+
+
+def _protect_constants(expr: str) -> str:
+    return _const_tokens.sub(lambda m: {"pi": "PR_CONST_PI", "E": "PR_CONST_E", "I": "PR_CONST_I"}[m.group(1)], expr)
+
+
 # a real literal without kind: digits with a decimal point, optionally followed by an e-exponent
 _real_literal = re.compile(r"(?<![\w.])(\d+\.\d*|\.\d+|\d+(?=[eE][-+]?\d))(?:[eE]([-+]?\d+))?(?![\w.])")
 
@@ -111,6 +119,12 @@ class FortranBackend(BaseBackend):
         self._imports.append("double precision :: PI = 4.0d0*atan(1.0d0)")
         self._imports.append("double precision :: E = exp(1.0d0)")
         self._imports.append("complex :: I = (0.0, 1.0)")
+        # Fortran is case-insensitive: a model variable called e, Pi or i shadows the constant of that name inside the
+        # generated routines. Generated code therefore refers to the constants by names no model variable can have
+        # (PI, E and I stay declared for hand-written Fortran snippets).
+        self._imports.append("double precision :: PR_CONST_PI = 4.0d0*atan(1.0d0)")
+        self._imports.append("double precision :: PR_CONST_E = exp(1.0d0)")
+        self._imports.append("complex :: PR_CONST_I = (0.0, 1.0)")
 
     def add_var_update(self, lhs: ComputeVar, rhs: str, lhs_idx: Optional[str] = None, rhs_shape: Optional[tuple] = ()):
         self.register_vars([lhs])
@@ -364,6 +378,8 @@ class FortranBackend(BaseBackend):
             old_expr = expr[start:start+stop]
             new_expr = replace(expr[start:start+stop], old_shift, new_shift)
             expr = replace(expr, old_expr, new_expr)
+
+        expr = _protect_constants(expr)
 
         # real literals are of default (single precision) kind in Fortran unless they carry a kind/exponent letter:
         # `0.1` would enter a double precision equation as 0.100000001490116 (single precision models keep literals of
@@ -1014,7 +1030,7 @@ class FortranBackend(BaseBackend):
             elif name.startswith('__PYR_ARG_'):
                 idx = name[len('__PYR_ARG_'):-2]
                 text = text.replace(name, f'args({idx})')
-        return text.strip()
+        return _protect_constants(text.strip())
 
     def _auto_param_indices(self, func_args: tuple, blocked: tuple) -> list:
         """Map each func arg to its 1-based PAR(...) slot, skipping reserved range."""
